@@ -4,8 +4,18 @@ Sub-checks
   build      (a) per PDU variant (declarative table VARIANTS: constructor, per-field strategy, fields compared): build from
              in-range field values -> as_bits has the fixed length -> from_bits gives back every field the variant's wire
              format carries (compared with the *input* values) -> as_bits of the decoded object equals the first bits.
+  build_boundary  (a) deterministic boundary pass per variant (not left to Hypothesis' bias): every boundary value of every field
+             ({0, 1, max-1, max, top bit only, all ones below it}; every member of every enum field; all-zero / all-ones /
+             alternating bit and byte strings, empty / 1 / 7 / 8 / 9-bit user data; most negative / most positive raw GPS
+             values, +-1 around zero, first / last quantisation step) one field at a time over two seeded backgrounds, all
+             pairs of ordered fields at (max, max), (0, max), (max, 0), all fields at min / max, the full product of the
+             boundary lists where it is small, and computed check values steered to {0, 1, max-1, max, top bit, below top}.
   decode     (b) arbitrary right-length bit strings (about half of them steered into implemented opcodes / formats / zero
              check fields): documented rejection, or the serialisation is a fixed point of decode-then-encode.
+  decode_boundary (b) deterministic pass per decoder: all-zero / all-ones / alternating strings, every implemented opcode /
+             format (and inner enum / zero check field template) with zero, one and seeded random fill, and every single-bit
+             flip of the zero- and one-filled strings (every reserved bit set / cleared one at a time, every opcode and enum
+             field at distance one from its constants); UDP/IPv4 at the lengths around its 40 / 56 / 72-bit exact fits.
   decode_atheris  (thorough) the same decoders and oracle under a coverage-guided Atheris campaign (vp/c03_atheris.py).
   elements   (c) every value 0..2^w-1 of every w<=8-bit element type against vp/refs/elements_ref.py.
   sync       the ten SYNC constants + random 48-bit values (SyncPatterns; not part of the w<=8 exhaustive claim).
@@ -33,12 +43,18 @@ RULE = (
     "(variant, field values), distinct by hash, non-trivial when >= 2 fields other than the variant's opcode/format selector "
     "differ from zero/false/empty/all-zero-bits; CSBK, data header, full LC and UDP/IPv4 cases are also taken through "
     "as_bytes/from_bytes. "
+    "build_boundary: deterministic enumeration per variant - every boundary value of every field ({0,1,max-1,max,top bit, "
+    "all ones below top}, every enum member, all-zero/all-ones/alternating strings, extreme and +-1-around-zero raw GPS values, "
+    "exact-fit lengths) one field at a time over two seeded backgrounds, all pairs of ordered fields at (max,max),(0,max),(max,0), "
+    "small full products, computed check values steered to their extremes through the affine structure of the CRCs; distinct "
+    "by hash. decode_boundary: deterministic enumeration per decoder - all-zero, all-ones, alternating, every implemented "
+    "opcode/format template with zero/one/random fill and every single-bit flip of the zero- and one-filled strings. "
     "(b) decode: per decoder, bit strings of the right length, one third to one half uniform, the rest with opcode / "
     "format / inner enum / check-field bits forced to implemented values; distinct by hash, non-trivial = strings the "
     "decoder accepts (rejected ones are tallied by exception type); thorough adds an Atheris campaign on the same decoders "
     "whose corpus entries and findings are re-judged in-process. (c) elements: complete enumeration of all 2^w values of "
     "every element type with w <= 8 (each (element, value) pair is a distinct non-trivial case). sync: the 10 SYNC "
-    "constants plus random 48-bit values."
+    "constants, all 480 values one bit away from a constant, plus random 48-bit values."
 )
 ASSUMPTIONS = [
     "in-range = the ranges documented in the constructors' docstrings / the bit widths written by as_bits; byte/bit string "
@@ -232,12 +248,48 @@ def coord_equal(exp, obs):
 # (a) declarative variant table
 
 
+class G:
+    """Generator of one field: Hypothesis strategy (sampled search) + deterministic boundary values `bnd` + the two extremes
+    `ext` (fields with an order) + a seeded sampler `rnd(rng)` (backgrounds of the boundary pass) + the bit width `nbits`
+    (fields with a bit structure: used to steer computed check values).  All values are plain JSON."""
+
+    def __init__(self, strat, bnd, rnd, ext=None, nbits=None):
+        self.strat, self.rnd, self.ext, self.nbits = strat, rnd, ext, nbits
+        self.bnd = []
+        for b in bnd:
+            if not any(b == x and type(b) is type(x) for x in self.bnd):
+                self.bnd.append(b)
+
+    def map(self, fn):
+        return G(self.strat.map(fn), [fn(b) for b in self.bnd], lambda r, s=self: fn(s.rnd(r)),
+                 None if self.ext is None else (fn(self.ext[0]), fn(self.ext[1])), self.nbits)
+
+    def also(self, *values):
+        """extra boundary values"""
+        return G(self.strat, self.bnd + list(values), self.rnd, self.ext, self.nbits)
+
+
+def ONE(*gs):
+    from hypothesis import strategies as st
+
+    return G(st.one_of(*[g.strat for g in gs]), [b for g in gs for b in g.bnd], lambda r: gs[r.randrange(len(gs))].rnd(r), gs[0].ext, gs[0].nbits)
+
+
+def CH(values, ordered=False):
+    """a choice among listed values: every one of them is a boundary value"""
+    from hypothesis import strategies as st
+
+    values = list(values)
+    return G(st.sampled_from(values), values, lambda r: values[r.randrange(len(values))], (values[0], values[-1]) if ordered else None)
+
+
 class Fld:
-    def __init__(self, attr, kind, strat=None, kw="=", check=False, expect=None, const=False):
+    def __init__(self, attr, kind, gen=None, kw="=", check=False, expect=None, const=False):
         self.const = const  # the variant's own opcode / format selector (not counted as a varied field)
         self.attr = attr  # attribute of the object compared after the round trip (None: constructor argument only)
         self.kind = kind
-        self.strat = strat  # Hypothesis strategy of JSON values (None: not generated, compare only)
+        self.gen = gen  # G of JSON values (None: not generated, compare only)
+        self.strat = gen.strat if gen is not None else None
         self.kw = attr if kw == "=" else kw  # constructor keyword (None: compare only)
         self.check = check  # check field: a zero-like input means "library computes it"
         self.expect = expect  # optional f -> expected JSON value (overrides the input value)
@@ -284,40 +336,68 @@ def _build_variants():
         assert v.name not in V
         V[v.name] = v
 
+    def ubnd(n):
+        """{0, 1, max-1, max, top bit only, all ones below the top bit}; every value when the field has <= 4 bits"""
+        if n <= 4:
+            return list(range(1 << n))
+        m = (1 << n) - 1
+        return [0, 1, m - 1, m, 1 << (n - 1), (1 << (n - 1)) - 1]
+
+    def alt(n):
+        return [int(("01" * n)[:n], 2), int(("10" * n)[:n], 2)] if n >= 2 else []
+
     def U(n):
         """n-bit field: Hypothesis' boundary/small-biased integers mixed with uniformly distributed values"""
+        m = (1 << n) - 1
         if n <= 8:
-            return st.integers(0, (1 << n) - 1)
-        k = (n + 7) // 8
-        uni = st.binary(min_size=k, max_size=k).map(lambda b, n=n: int.from_bytes(b, "big") & ((1 << n) - 1))
-        return st.one_of(st.integers(0, (1 << n) - 1), uni)
+            strat = st.integers(0, m)
+        else:
+            k = (n + 7) // 8
+            uni = st.binary(min_size=k, max_size=k).map(lambda b, n=n: int.from_bytes(b, "big") & ((1 << n) - 1))
+            strat = st.one_of(st.integers(0, m), uni)
+        return G(strat, ubnd(n), lambda r, n=n: r.getrandbits(n) if n else 0, (0, m), n)
 
-    B = st.booleans()
-    B01 = st.sampled_from([False, True, 0, 1])
+    B = CH([False, True], ordered=True)
+    B01 = G(st.sampled_from([False, True, 0, 1]), [False, True, 0, 1], lambda r: [False, True, 0, 1][r.randrange(4)], (False, True))
 
     def EN(name, exclude=()):
-        return st.sampled_from(members(name, exclude))
+        return CH(members(name, exclude))
 
     def EN_INT(name, exclude=()):
         """defined members only, handed over either as member or as its integer value"""
         E = lib(name)
-        return st.one_of(st.sampled_from(members(name, exclude)), st.sampled_from([E[n].value for n in members(name, exclude)]))
+        return ONE(CH(members(name, exclude)), CH([E[n].value for n in members(name, exclude)]))
 
     def BITS(n):
-        return U(n).map(lambda v, n=n: format(v, f"0{n}b") if n else "")
+        """bit string of exactly n bits; boundary: the integer boundaries plus the two alternating patterns"""
+        if n == 0:
+            return CH([""])
+        g = U(n)
+        return G(g.strat, g.bnd + alt(n), g.rnd, g.ext, n).map(lambda v, n=n: format(v, f"0{n}b"))
 
     def HEX(n):
-        return st.binary(min_size=n, max_size=n).map(bytes.hex)
+        g = U(8 * n)
+        return G(st.binary(min_size=n, max_size=n).map(lambda b: int.from_bytes(b, "big")), g.bnd + alt(8 * n), g.rnd, g.ext, 8 * n).map(
+            lambda v, n=n: format(v, f"0{2 * n}x"))
 
     def CRCINT(n):
-        return st.one_of(st.just(0), st.integers(1, (1 << n) - 1))
+        m = (1 << n) - 1
+        return G(st.one_of(st.just(0), st.integers(1, m)), ubnd(n), lambda r, m=m: 0 if r.random() < 0.5 else r.randint(1, m), (0, m), n)
 
     def just(kind, value, attr, kw="="):
-        return Fld(attr, kind, st.just(value), kw=kw, const=True)
+        return Fld(attr, kind, CH([value]), kw=kw, const=True)
 
-    SO = st.fixed_dictionaries(
-        {"is_emergency": B01, "is_privacy": B01, "is_broadcast": B01, "is_open_voice_call_mode": B01, "priority_level": U(2), "reserved": BITS(2)}
-    )
+    def so_dict(v, ints=False):
+        """8-bit service-options value -> constructor arguments (wire order E, P, R, R, B, OVCM, priority(2))"""
+        b = [(v >> (7 - i)) & 1 for i in range(8)]
+        cv = (lambda x: x) if ints else bool
+        return {"is_emergency": cv(b[0]), "is_privacy": cv(b[1]), "reserved": f"{b[2]}{b[3]}", "is_broadcast": cv(b[4]),
+                "is_open_voice_call_mode": cv(b[5]), "priority_level": 2 * b[6] + b[7]}
+
+    SO = G(st.fixed_dictionaries({"is_emergency": B01.strat, "is_privacy": B01.strat, "is_broadcast": B01.strat, "is_open_voice_call_mode": B01.strat,
+                                  "priority_level": U(2).strat, "reserved": BITS(2).strat}),
+           [so_dict(v) for v in range(256)] + [so_dict(v, ints=True) for v in (0, 255, 0xAA, 0x55)],
+           lambda r: so_dict(r.getrandbits(8), ints=r.random() < 0.3), (so_dict(0), so_dict(255)))
 
     # ------------------------------------------------------------------------------------------------ CSBK (96 bits)
     def csbk(name, opcode, fields, with_last_block=True):
@@ -347,13 +427,13 @@ def _build_variants():
           Fld("blocks_to_follow", "int", U(8)), Fld("target_address", "int", U(24)), Fld("source_address", "int", U(24))])
     csbk("ct_csbk", "ChannelTimingCSBK",
          [Fld("sync_age", "int", U(11)), Fld("generation", "int", U(5)), Fld("leader_identifier", "int", U(20)),
-          Fld("new_leader", "int", st.sampled_from([0, 1, False, True]), expect=lambda f: int(f["new_leader"])),
+          Fld("new_leader", "int", CH([0, 1, False, True]), expect=lambda f: int(f["new_leader"])),
           Fld("leader_dynamic_identifier", "enum:DynamicIdentifier", EN_INT("DynamicIdentifier")),
           Fld("channel_timing_opcode", "enum:ChannelTimingOpcode", EN_INT("ChannelTimingOpcode")),
           Fld("source_identifier", "int", U(20)),
           Fld("source_dynamic_identifier", "enum:DynamicIdentifier", EN_INT("DynamicIdentifier"))])
     csbk("hytera_ipsc_sync", "HyteraIPSCSync",
-         [Fld("raw_data", "bytes|bits", st.one_of(HEX(8).map(lambda h: "hex:" + h), BITS(64).map(lambda b: "bits:" + b)))])
+         [Fld("raw_data", "bytes|bits", ONE(HEX(8).map(lambda h: "hex:" + h), BITS(64).map(lambda b: "bits:" + b)))])
     csbk("c_aloha", "AlohaPDUsForRandomAccessProtocol",
          [Fld("tsccas_support", "bool", B), Fld("site_timeslot_synchronized", "bool", B), Fld("document_version_control", "int", U(3)),
           Fld("tscc_is_offset_timing", "bool", B), Fld("ts_active_connection", "bool", B), Fld("aloha_mask", "int", U(5)),
@@ -365,7 +445,7 @@ def _build_variants():
           Fld("tscc_reg_required", "bool", B), Fld("tscc_backoff", "int", U(4)), Fld("system_identity_code", "int", U(16))])
 
     # ------------------------------------------------------------------------------------------------ data headers (96 bits)
-    CRC16B = st.one_of(st.none(), st.just("0" * 16), st.integers(1, 0xFFFF).map(lambda v: format(v, "016b")))
+    CRC16B = ONE(CH([None, "0" * 16]), G(st.integers(1, 0xFFFF), ubnd(16)[1:], lambda r: r.randint(1, 0xFFFF), (1, 0xFFFF), 16).map(lambda v: format(v, "016b")))
 
     def dh(name, dpf, fields):
         common = [
@@ -377,7 +457,7 @@ def _build_variants():
         ]
         add(Variant("dh." + name, "DataHeader", common + fields, 96))
 
-    FSN = st.one_of(U(4), U(4).map(lambda v: {"fsn": v}))
+    FSN = ONE(U(4), U(4).map(lambda v: {"fsn": v}))
     F_FLAG = Fld("full_message_flag", "enum:FullMessageFlag", EN("FullMessageFlag"))
     dh("confirmed", "DataPacketConfirmed",
        [Fld("is_group", "bool", B01), Fld("is_response_requested", "bool", B01), Fld("pad_octet_count", "int", U(5)), F_FLAG,
@@ -404,14 +484,22 @@ def _build_variants():
 
     def coord(nmin, nmax, lim, grid):
         """grid=True: on-grid k*step (exact in binary64).  grid=False: off-grid (k + i/2^20)*step (also exact, so the class is what
-        it says; k = nmax gives values within one step below the upper bound) or an arbitrary float of the half-open range"""
-        n = st.one_of(st.sampled_from([nmin, nmax, nmax - 1, 0, -1, 1]), st.integers(nmin, nmax), U(24).map(lambda v: nmin + v % (nmax - nmin + 1)))
+        it says; k = nmax gives values within one step below the upper bound) or an arbitrary float of the half-open range.
+        Boundary values: the most negative / most positive raw values and their neighbours, +-1 around zero; off-grid: the first
+        and last quantisation step of the range and both sides of zero at 1/2^20, 1/2 and 1-1/2^20 of a step, the largest float
+        below the upper bound, the smallest positive / negative floats."""
+        n = st.one_of(st.sampled_from([nmin, nmax, nmax - 1, 0, -1, 1]), st.integers(nmin, nmax), U(24).strat.map(lambda v: nmin + v % (nmax - nmin + 1)))
         if grid:
-            return n.map(lambda k: k * step)
-        num = st.one_of(st.sampled_from([1, 2**19 - 1, 2**19, 2**19 + 1, 2**20 - 1]), U(20).map(lambda v: v or 1))
+            ks = [nmin, nmin + 1, -2, -1, 0, 1, 2, nmax - 1, nmax, 1 << 22, -(1 << 22)]
+            return G(n.map(lambda k: k * step), [k * step for k in ks], lambda r: r.randint(nmin, nmax) * step, (nmin * step, nmax * step))
+        num = st.one_of(st.sampled_from([1, 2**19 - 1, 2**19, 2**19 + 1, 2**20 - 1]), U(20).strat.map(lambda v: v or 1))
         off = st.tuples(n, num).map(lambda a: (a[0] + a[1] / 2**20) * step)
         edge = st.tuples(st.sampled_from([nmax, nmin, -1, 0]), num).map(lambda a: (a[0] + a[1] / 2**20) * step)  # last / first step, around zero
-        return st.one_of(off, off, edge, st.floats(-float(lim), float(lim), exclude_max=True, allow_nan=False))
+        top = math.nextafter(float(lim), 0.0)
+        bnd = [(k + i / 2**20) * step for k in (nmax, nmax - 1, nmin, -1, 0, 1) for i in (1, 2**19 - 1, 2**19, 2**19 + 1, 2**20 - 1)]
+        bnd += [top, -float(lim), 5e-324, -5e-324, float(lim) / 2 + 1e-9]
+        return G(st.one_of(off, off, edge, st.floats(-float(lim), float(lim), exclude_max=True, allow_nan=False)), bnd,
+                 lambda r: (r.randint(nmin, nmax - 1) + r.randint(1, 2**20 - 1) / 2**20) * step, (-float(lim), top))
 
     def flc(name, flco, fields):
         for crclen in (24, 5):
@@ -436,7 +524,7 @@ def _build_variants():
         flc(f"ta_block{i}", f"TalkerAliasBlock{i}", [Fld("talker_alias_data", "bytes", HEX(7))])
 
     # ------------------------------------------------------------------------------------------------ short LC (36 bits)
-    CRC8 = st.one_of(st.just(0), st.integers(1, 255), st.just("bits:00000000"), st.integers(1, 255).map(lambda v: "bits:" + format(v, "08b")))
+    CRC8 = ONE(CRCINT(8), CRCINT(8).map(lambda v: "bits:" + format(v, "08b")))
     add(Variant("slc.null", "ShortLinkControl", [just("enum:SLCOs", "NullMessage", "slco"), Fld("crc_8bit", "crc8", CRC8, check=True)], 36))
     add(Variant("slc.activity", "ShortLinkControl",
                 [just("enum:SLCOs", "ActivityUpdate", "slco"), Fld("crc_8bit", "crc8", CRC8, check=True),
@@ -444,20 +532,20 @@ def _build_variants():
                  Fld("ts1_address", "bits", BITS(8)), Fld("ts2_address", "bits", BITS(8))], 36))
 
     # ------------------------------------------------------------------------------------------------ PI header (96 bits)
-    add(Variant("pi_header", "PIHeader", [Fld("data", "bytes", HEX(10)), Fld("crc", "crc_int", st.just(0), check=True)], 96))
+    add(Variant("pi_header", "PIHeader", [Fld("data", "bytes", HEX(10)), Fld("crc", "crc_int", G(st.just(0), [0], lambda r: 0, None, 16), check=True)], 96))
 
     # ------------------------------------------------------------------------------------------------ rate 1/2, 3/4, 1 data
     def DATA(n):
-        return st.one_of(HEX(n).map(lambda h: "hex:" + h), BITS(8 * n).map(lambda b: "bits:" + b))
+        return ONE(HEX(n).map(lambda h: "hex:" + h), BITS(8 * n).map(lambda b: "bits:" + b))
 
-    CRC32 = st.one_of(U(32), HEX(4).map(lambda h: "hex:" + h))
-    DBSN = st.one_of(U(7), BITS(7).map(lambda b: "bits:" + b))
+    CRC32 = ONE(U(32), HEX(4).map(lambda h: "hex:" + h))
+    DBSN = ONE(U(7), BITS(7).map(lambda b: "bits:" + b))
     for cls, tcls, total in (("Rate12Data", "Rate12DataTypes", 12), ("Rate34Data", "Rate34DataTypes", 18), ("Rate1Data", "Rate1DataTypes", 24)):
         for tname, conf, last in (("Unconfirmed", 0, 0), ("Confirmed", 1, 0), ("UnconfirmedLastBlock", 0, 1), ("ConfirmedLastBlock", 1, 1)):
             n = total - 2 * conf - 4 * last
             fields = [
                 Fld("data", "bytes|bits", DATA(n)),
-                Fld("packet_type", f"enum:{tcls}", st.sampled_from([tname, "Undefined"]), expect=lambda f, t=tname: t),
+                Fld("packet_type", f"enum:{tcls}", CH([tname, "Undefined"]), expect=lambda f, t=tname: t),
             ]
             if conf:
                 fields += [Fld("dbsn", "int|bits", DBSN), Fld("crc9", "crc_int", CRCINT(9), check=True)]
@@ -468,9 +556,17 @@ def _build_variants():
                     [Fld("data", "bytes|bits", DATA(total)), Fld("packet_type", f"enum:{tcls}", None, kw=None, expect=lambda f: "Unconfirmed")], 8 * total))
 
     # ------------------------------------------------------------------------------------------------ UDP/IPv4 compressed header
-    PORT_NZ = st.one_of(st.integers(1, 127), st.sampled_from(members("UDPPortIdentifier", exclude=("InExtendedHeader",))))
-    PORT_Z = st.sampled_from([0, "InExtendedHeader"])
-    UDATA = st.one_of(st.integers(0, 24).flatmap(lambda k: BITS(8 * k)), st.integers(0, 70).flatmap(BITS))
+    PORT_NZ = ONE(G(st.integers(1, 127), [1, 2, 3, 4, 63, 64, 93, 94, 95, 96, 126, 127], lambda r: r.randint(1, 127), (1, 127), None),
+                  CH(members("UDPPortIdentifier", exclude=("InExtendedHeader",))))
+    PORT_Z = CH([0, "InExtendedHeader"])
+
+    def _pat(n):
+        return [("0" * n), ("1" * n), ("01" * n)[:n], ("10" * n)[:n]]
+
+    # user data: whole octets or any bit count; boundary: empty (the header fits exactly), one bit, 7/8/9 bits, long strings
+    UDATA = G(st.one_of(st.integers(0, 24).flatmap(lambda k: BITS(8 * k).strat), st.integers(0, 70).flatmap(lambda k: BITS(k).strat)),
+              [""] + [p_ for n_ in (1, 7, 8, 9, 16, 70, 192) for p_ in _pat(n_)],
+              lambda r: format(r.getrandbits(8 * k), f"0{8 * k}b") if (k := r.randint(0, 24)) else "", ("", "1" * 192))
 
     def port_original(key):
         return lambda f: f[key] if isinstance(f[key], int) else lib("UDPPortIdentifier")[f[key]].value
@@ -485,8 +581,8 @@ def _build_variants():
             Fld("udp_source_port_original", "int", None, kw=None, expect=port_original("udp_source_port_id")),
             Fld("udp_destination_port_original", "int", None, kw=None, expect=port_original("udp_destination_port_id")),
             Fld("user_data", "bits", UDATA),
-            Fld("extended_header_1", "int", U(16) if next_ >= 1 else st.none()),
-            Fld("extended_header_2", "int", U(16) if next_ >= 2 else st.none()),
+            Fld("extended_header_1", "int", U(16) if next_ >= 1 else CH([None])),
+            Fld("extended_header_2", "int", U(16) if next_ >= 2 else CH([None])),
         ]
         add(Variant("udp." + name, "UDPIPv4CompressedHeader", fields, lambda f, k=next_: 40 + 16 * k + len(f["user_data"])))
 
@@ -496,7 +592,7 @@ def _build_variants():
                  Fld("fec_parity", "crc_int", CRCINT(12), kw="parity", check=True)], 20))
     add(Variant("emb", "EmbeddedSignalling",
                 [Fld("colour_code", "int", U(4)),
-                 Fld("preemption_and_power_control_indicator", "enum:PreemptionPowerIndicator", st.sampled_from([0, 1])),
+                 Fld("preemption_and_power_control_indicator", "enum:PreemptionPowerIndicator", CH([0, 1], ordered=True)),
                  Fld("link_control_start_stop", "enum:LCSS", EN_INT("LCSS")),
                  Fld("emb_parity", "crc_int", CRCINT(9), check=True)], 16))
     add(Variant("service_options", "ServiceOptions",
@@ -596,15 +692,155 @@ def _record_build(sub):
 
 def drv_build(ctx: Ctx, sub: SubCheck):
     names = list(variants())
-    n = ctx.pick(120, 2500)
+    parts = ctx.pick(2, 4)  # several independently seeded runs per variant: evens out the 16 workers
+    n = ctx.pick(400, 5600) // parts
 
-    def work(name, t: Tally):
+    def work(item, t: Tally):
+        name, part = item
         v = variants()[name]
-        ctx.hypothesis(sub.name, v.strategy(), oracle_build, n, tally=t, shard=name,
+        ctx.hypothesis(sub.name, v.strategy(), oracle_build, n, tally=t, shard=f"{name}#{part}",
                        record=_record_build(sub.name))
 
-    ctx.shards(work, names)
+    ctx.shards(work, [(name, part) for part in range(parts) for name in names])
     ctx.tally.extra["build_variants"] = len(names)
+
+
+# ---------------------------------------------------------------------------------------------- deterministic boundary pass
+
+
+def _jkey(o):
+    import json
+
+    return json.dumps(o, sort_keys=True)
+
+
+def toggle_json(kind, v, i, nbits):
+    """flip bit i (0 = least significant / last) of a JSON field value with a bit structure; None when the form has none"""
+    if isinstance(v, bool) or v is None or isinstance(v, (dict, float)):
+        return None
+    if isinstance(v, int):
+        return v ^ (1 << i)
+    tag, sep, body = v.partition(":")
+    if not sep:
+        tag, body = ("hex" if kind == "bytes" else "bits"), v
+    if tag == "hex":
+        out = format(int(body, 16) ^ (1 << i), f"0{len(body)}x")
+    else:
+        out = format(int(body, 2) ^ (1 << i), f"0{len(body)}b")
+    return (tag + ":" + out) if sep else out
+
+
+def _check_value(v, f):
+    """the check value the library computes for case fields f (driver-side steering aid, never part of a judgement)"""
+    chk = [fl for fl in v.fields if fl.check][0]
+    kwargs = {fl.kw: to_lib(fl.kind, f[fl.kw]) for fl in v.fields if fl.kw is not None and fl.kw in f}
+    o = observed(chk.kind, getattr(lib(v.cls)(**kwargs), chk.attr))
+    return o if isinstance(o, int) else int(o, 2)
+
+
+def boundary_cases(v, rng):
+    """Deterministic cases of one variant (labelled): every boundary value of every field, one field at a time over two seeded
+    backgrounds; all pairs of ordered fields at (max, max), (0, max), (max, 0); all fields at their minimum / maximum; the full
+    product of the boundary lists when it is small; computed check values steered to their extremes."""
+    import itertools
+
+    gens = [(fl, fl.gen) for fl in v.fields if fl.kw is not None and fl.gen is not None]
+    bgs = [{fl.kw: g.rnd(rng) for fl, g in gens} for _ in range(2)]
+    varied = [(fl, g) for fl, g in gens if not fl.const]
+    out = []
+    for fl, g in varied:
+        for b in g.bnd:
+            for bg in bgs:
+                out.append(("one_field", dict(bg, **{fl.kw: b})))
+    ordered = [(fl, g) for fl, g in varied if g.ext is not None]
+    for (f1, g1), (f2, g2) in itertools.combinations(ordered, 2):
+        for a, b in ((1, 1), (0, 1), (1, 0)):
+            for bg in bgs:
+                out.append(("pair", dict(bg, **{f1.kw: g1.ext[a], f2.kw: g2.ext[b]})))
+    for side in (0, 1):
+        for bg in bgs:
+            out.append(("all_extreme", dict(bg, **{fl.kw: g.ext[side] for fl, g in ordered})))
+    size = 1
+    for fl, g in varied:
+        size *= len(g.bnd)
+    if size <= 3000:
+        for combo in itertools.product(*[g.bnd for fl, g in varied]):
+            out.append(("product", dict(bgs[0], **{fl.kw: b for (fl, g), b in zip(varied, combo)})))
+    out.extend(_check_extreme_cases(v, bgs))
+    seen, res = set(), []
+    for label, f in out:
+        k = _jkey(f)
+        if k not in seen:
+            seen.add(k)
+            res.append((label, {"variant": v.name, "f": f}))
+    return res
+
+
+def _check_extreme_cases(v, bgs):
+    """Cases whose *computed* check value (CRC / parity generated by the library for a zero input) is 0, 1, max-1, max, the top
+    bit only, or all ones below it.  CRCs are affine over GF(2): the effect of every single-bit toggle of the other fields on the
+    computed value is measured through the library, and the combination that reaches the target is found by elimination.
+    Pure steering - whether a target was hit is re-measured and only labels the case."""
+    chks = [fl for fl in v.fields if fl.check and fl.gen is not None and fl.gen.nbits]
+    if not chks:
+        return []
+    chk = chks[0]
+    n = chk.gen.nbits
+    out = []
+    zero = {"crc_int": 0, "crc_bits": None, "crc8": 0}[chk.kind]
+    for bg in bgs:
+        base = dict(bg, **{chk.kw: zero})
+        try:
+            c0 = _check_value(v, base)
+            basis = {}  # pivot bit -> (delta, set of toggles)
+            for fl in v.fields:
+                if fl is chk or fl.const or fl.gen is None or fl.kw is None or not fl.gen.nbits or len(basis) == n:
+                    continue
+                for i in range(fl.gen.nbits):
+                    t = toggle_json(fl.kind, base[fl.kw], i, fl.gen.nbits)
+                    if t is None:
+                        break
+                    d, togs = _check_value(v, dict(base, **{fl.kw: t})) ^ c0, {(fl.kw, i)}
+                    while d:
+                        pv = d.bit_length() - 1
+                        if pv not in basis:
+                            basis[pv] = (d, togs)
+                            break
+                        d, togs = d ^ basis[pv][0], togs ^ basis[pv][1]
+                    if len(basis) == n:
+                        break
+            m = (1 << n) - 1
+            for target in dict.fromkeys([0, 1, m - 1, m, 1 << (n - 1), (1 << (n - 1)) - 1]):
+                d, togs = target ^ c0, set()
+                while d:
+                    pv = d.bit_length() - 1
+                    if pv not in basis:
+                        break
+                    d, togs = d ^ basis[pv][0], togs ^ basis[pv][1]
+                if d:
+                    continue
+                f = dict(base)
+                kinds = {fl.kw: fl for fl in v.fields if fl.kw}
+                for kw, i in sorted(togs):
+                    f[kw] = toggle_json(kinds[kw].kind, f[kw], i, kinds[kw].gen.nbits)
+                hit = _check_value(v, f) == target
+                out.append(("check_extreme_hit" if hit else "check_extreme_miss", f))
+                if hit and target and chk.kind != "crc8":  # the same PDU with the extreme value handed in explicitly
+                    out.append(("check_extreme_given", dict(f, **{chk.kw: target if chk.kind == "crc_int" else format(target, f"0{n}b")})))
+        except Exception:
+            out.append(("check_extreme_steering_failed", base))
+    return out
+
+
+def drv_build_boundary(ctx: Ctx, sub: SubCheck):
+    def work(name, t: Tally):
+        v = variants()[name]
+        for label, case in boundary_cases(v, ctx.rng("boundary", name)):
+            ctx.run_case(sub.name, oracle_build, case, t)
+            t.case(sub.name, key=case, nontrivial=_nontrivial_fields(case) >= 2, cls=f"{label}")
+            t.cls(sub.name, f"variant:{name}")
+
+    ctx.shards(work, list(variants()))
 
 
 # ======================================================================================================================
@@ -779,19 +1015,81 @@ def oracle_decode(case):
 
 def drv_decode(ctx: Ctx, sub: SubCheck):
     names = list(decoders())
-    n = ctx.pick(400, 9000)
+    parts = ctx.pick(2, 4)
+    n = ctx.pick(1100, 20000) // parts
 
     def rec(c, t: Tally):
         out = _LAST.get("outcome", "?")
         t.case(sub.name, key=c, nontrivial=out.startswith("accepted"), cls=f"{c['dec']}:{out}")
 
-    def work(name, t: Tally):
+    def work(item, t: Tally):
+        name, part = item
         d = decoders()[name]
         small = d.n is not None and d.n <= 8
-        ctx.hypothesis(sub.name, d.strategy(), oracle_decode, min(n, 2 << d.n) if small else n, tally=t, shard=name, record=rec)
+        if small and part:
+            return  # at most 256 strings: one run covers them
+        ctx.hypothesis(sub.name, d.strategy(), oracle_decode, min(n, 2 << d.n) if small else n, tally=t, shard=f"{name}#{part}", record=rec)
 
-    ctx.shards(work, names)
+    ctx.shards(work, [(name, part) for part in range(parts) for name in names])
     ctx.tally.extra["decoders"] = len(names)
+
+
+UDP_LENGTHS = [40, 41, 47, 48, 55, 56, 57, 64, 71, 72, 73, 80, 104]  # around the 40 / 56 / 72-bit exact fits of 0 / 1 / 2 extended headers
+
+
+def decode_boundary_cases(d, rng):
+    """Deterministic strings of one decoder (labelled): all-zero, all-ones, alternating; per steering template every value of
+    its first forced group (the other groups cycling through theirs), the rest filled with zeros / ones / seeded random bits;
+    and every single-bit flip of the zero- and one-filled strings (sets every reserved / unused bit one at a time, clears it
+    one at a time, and moves every opcode / enum field to all values at distance one)."""
+    if d.n is not None:
+        lengths = [d.n]
+    else:
+        lengths = [n for n in UDP_LENGTHS if d.method != "from_bytes" or n % 8 == 0]
+    out = []
+    for n in lengths:
+        ones = (1 << n) - 1
+        plain = [("all_zero", 0), ("all_ones", ones), ("alternating", int(("01" * n)[:n], 2)), ("alternating", int(("10" * n)[:n], 2))]
+        bases = [(lab, val, lab in ("all_zero", "all_ones")) for lab, val in plain]
+        for tpl in d.templates:
+            if any(hi > n for lo, hi, _ in tpl):
+                continue
+            first = tpl[0][2]
+            picks = first if len(first) <= 12 else [first[(i * len(first)) // 12] for i in range(12)]
+            for idx, v0 in enumerate(picks):
+                vals = [v0] + [grp[2][idx % len(grp[2])] for grp in tpl[1:]]
+                for fill_name, fill in (("zero_fill", 0), ("one_fill", ones), ("random_fill", rng.getrandbits(n))):
+                    val = fill
+                    for (lo, hi, _), x in zip(tpl, vals):
+                        w, shift = hi - lo, n - hi
+                        val = (val & ~(((1 << w) - 1) << shift)) | (x << shift)
+                    bases.append(("template_" + fill_name, val, fill_name != "random_fill"))
+        flip_limit = n if d.n is not None else min(n, 72)  # UDP/IPv4: the header part (user data bits are carried verbatim)
+        for lab, val, flips in bases:
+            out.append((lab, n, val))
+            if flips:
+                for i in range(flip_limit):
+                    out.append((lab + "+flip", n, val ^ (1 << (n - 1 - i))))
+    seen, res = set(), []
+    for lab, n, val in out:
+        if (n, val) not in seen:
+            seen.add((n, val))
+            res.append((lab, {"dec": d.name, "bits": format(val, f"0{n}b")}))
+    return res
+
+
+def drv_decode_boundary(ctx: Ctx, sub: SubCheck):
+    def work(name, t: Tally):
+        d = decoders()[name]
+        for label, case in decode_boundary_cases(d, ctx.rng("decode-boundary", name)):
+            _LAST["outcome"] = "failing"
+            ctx.run_case(sub.name, oracle_decode, case, t)
+            out = _LAST["outcome"]
+            t.case(sub.name, nontrivial=out.startswith("accepted"), cls=f"{label}:{out.split(':')[0]}")
+            t.cls(sub.name, f"decoder:{name}")
+        t.sample(sub.name, case)
+
+    ctx.shards(work, list(decoders()))
 
 
 def case_from_fuzz_bytes(data: bytes):
@@ -826,8 +1124,8 @@ def drv_atheris(ctx: Ctx, sub: SubCheck):
     except Exception:
         ctx.tally.notes.append("atheris not importable: coverage-guided campaign skipped (Hypothesis sub-checks only)")
         return
-    runs = int(os.environ.get("VP_ATHERIS_RUNS", "500000"))
-    max_time = int(os.environ.get("VP_ATHERIS_TIME", "60"))
+    runs = int(os.environ.get("VP_ATHERIS_RUNS", "1500000"))
+    max_time = int(os.environ.get("VP_ATHERIS_TIME", "150"))
     n_proc = 4
     names = list(decoders())
     with tempfile.TemporaryDirectory(prefix="vp-c03-atheris-") as tmp:
@@ -1007,6 +1305,12 @@ def drv_sync(ctx: Ctx, sub: SubCheck):
     for v in elements_ref.SYNC_PATTERNS:
         ctx.run_case(sub.name, oracle_sync, {"value": v})
         ctx.tally.case(sub.name, key={"value": v}, nontrivial=True, cls="constant")
+        for i in range(48):  # every value at distance one from a constant
+            ctx.run_case(sub.name, oracle_sync, {"value": v ^ (1 << i)})
+            ctx.tally.case(sub.name, key={"value": v ^ (1 << i)}, nontrivial=True, cls="constant_one_bit_off")
+    for v in (0, 2**48 - 1, 0x555555555555, 0xAAAAAAAAAAAA):
+        ctx.run_case(sub.name, oracle_sync, {"value": v})
+        ctx.tally.case(sub.name, key={"value": v}, nontrivial=True, cls="other")
     near = st.tuples(st.sampled_from(elements_ref.SYNC_PATTERNS), st.integers(0, 47)).map(lambda a: a[0] ^ (1 << a[1]))
     strat = st.one_of(st.integers(0, 2**48 - 1), near).map(lambda v: {"value": v})
     ctx.hypothesis(sub.name, strat, oracle_sync, ctx.pick(300, 5000),
@@ -1015,7 +1319,11 @@ def drv_sync(ctx: Ctx, sub: SubCheck):
 
 SUBCHECKS = [
     SubCheck("build", oracle_build, drv_build, "(a) build -> as_bits (fixed length) -> from_bits: every wire field equals the input, bits equal"),
+    SubCheck("build_boundary", oracle_build, drv_build_boundary, "(a) deterministic boundary pass per variant: every boundary value of every field one at a time over two "
+             "seeded backgrounds, all pairs of extremes, small full products, computed check values steered to their extremes"),
     SubCheck("decode", oracle_decode, drv_decode, "(b) arbitrary right-length strings: documented rejection or decode-encode fixed point"),
+    SubCheck("decode_boundary", oracle_decode, drv_decode_boundary, "(b) deterministic pass per decoder: all-zero / all-ones / alternating strings, every implemented opcode / format "
+             "with zero, one and random fill, and every single-bit flip of those (reserved bits, distance-1 opcodes)"),
     SubCheck("decode_atheris", oracle_decode, drv_atheris, "(b) coverage-guided (Atheris) campaign on the same decoders and oracle", tiers=("thorough",)),
     SubCheck("elements", oracle_element, drv_elements, "(c) all 2^w values of every w<=8-bit element: defined -> itself, undefined -> reserved member or error"),
     SubCheck("sync", oracle_sync, drv_sync, "SYNC constants and random 48-bit values"),
